@@ -129,6 +129,13 @@ def impl_values(net, directed, g0, g1, all_reach):
             put("nsi_eigenvector_centrality@oracle", net.nsi_eigenvector_centrality)
             put("nsi_newman_betweenness@oracle", net.nsi_newman_betweenness)
             put("nsi_arenas_betweenness@oracle", net.nsi_arenas_betweenness)
+        if n >= 3:
+            # non-default variant documented as n.s.i., also on networks with several (small)
+            # components, which are treated one by one
+            put("nsi_newman_betweenness_ends@oracle",
+                lambda: net.nsi_newman_betweenness(add_local_ends=True))
+            if not all_reach:
+                put("nsi_newman_betweenness_comp@oracle", net.nsi_newman_betweenness)
         L1 = [i for i in range(n) if g0[i]]
         L2 = [i for i in range(n) if g1[i]]
         if L1 and L2:
